@@ -61,6 +61,7 @@ type Obligation struct {
 	Cover   bool   // vacuity cover query: must be SAT
 	Candidate string
 	Rets    []*Val // post obligations: the values returned on this path
+	Raw     string // complete SMT script (obligations not generated from a function body); unsat = discharged
 }
 
 // KeyInfo describes one state key.
@@ -701,7 +702,9 @@ const preamble = `(declare-sort Str 0)
 (declare-fun gs.diff (Str Str) Int)
 (declare-datatypes ((Slice 0)) (((mkslice (s.base Int) (s.off Int) (s.len Int) (s.cap Int)))))
 (declare-datatypes ((Iface 0)) (((mkiface (i.tag Int) (i.pay Int)))))
-(declare-fun ref.root (Int) Int)
+`
+
+const rootAxioms = `(declare-fun ref.root (Int) Int)
 (assert (forall ((r Int)) (! (=> (>= r 0) (= (ref.root r) r)) :pattern ((ref.root r)))))
 `
 
